@@ -30,6 +30,7 @@ struct Rig {
     to.sin_family = AF_INET; to.sin_addr.s_addr = htonl(INADDR_LOOPBACK); to.sin_port = htons(eng->getListenerAddress(lid).port);
     return true; }
   size_t count(char k) { std::lock_guard<std::mutex> g(mx); size_t n = 0; for (auto &e : evs) n += e.kind == k; return n; }
+  template <class P> bool wait(P pr) { for (int i = 0; i < 400; i++) { if (pr()) return true; std::this_thread::sleep_for(10ms); } return false; }
   bool waitData(size_t n) { for (int i = 0; i < 400; i++) { if (count('D') >= n) return true; std::this_thread::sleep_for(10ms); } return false; }
   ~Rig() { if (eng) eng->stop(); }
 };
@@ -37,8 +38,36 @@ static int peerSock() { int p = ::socket(AF_INET, SOCK_DGRAM, 0); sockaddr_in me
   int sz = 1 << 20; ::setsockopt(p, SOL_SOCKET, SO_SNDBUF, &sz, sizeof(sz)); return p; }
 static std::vector<uint8_t> pattern(size_t n, uint8_t seed) { std::vector<uint8_t> v(n); for (size_t i = 0; i < n; i++) v[i] = (uint8_t)(seed + i * 31 + (i >> 8)); return v; }
 
-int main(int, char **)
+// Scenario "via_cap" (replay_scenarios: via_tail clauses V1b / I1): session cap reached, connectViaListener() to a not yet indexed peer is refused ->
+// the peer index must not keep an entry for that peer (it would name a session that was never created; the peer's next datagram would then be
+// dispatched through it and dereference a null session on the I/O thread).
+static int via_cap()
 {
+  Rig r; TransportConfig cfg{}; cfg.maxSessions = 1;
+  if (!r.up(cfg)) { replay_io::ok("skipped: cannot start the engine / bind loopback UDP in this sandbox"); return 0; }
+  int p = peerSock(), q = peerSock(); sockaddr_in qa{}; socklen_t ql = sizeof(qa); ::getsockname(q, (sockaddr *)&qa, &ql);
+  ::sendto(p, "one", 3, 0, (sockaddr *)&r.to, sizeof(r.to));
+  if (!r.waitData(1)) replay_io::fail("via_cap: first datagram not delivered");
+  auto cr = r.eng->connectViaListener(r.lid, "127.0.0.1", ntohs(qa.sin_port));      // engine is at the cap: must be refused with a close notification
+  if (!r.wait([&] { return r.count('C') >= 1; })) replay_io::fail("V1a refused connectViaListener got no close notification");
+  std::this_thread::sleep_for(100ms);
+  sockaddr_storage qs{}; memcpy(&qs, &qa, sizeof(qa));
+  const std::string k = UdpEngine::key(qs);
+  if (r.eng->_peerIndex.count(k))         // I/O thread is idle here
+    replay_io::fail("V1b/I1 a refused connectViaListener left _peerIndex[" + k + "] -> session " + std::to_string(r.eng->_peerIndex[k]) +
+                    ", which is not in the session table (the next datagram from that peer dereferences a null session on the I/O thread)");
+  ::sendto(q, "q", 1, 0, (sockaddr *)&r.to, sizeof(r.to));                          // refused peer's datagram: dropped by the cap, engine must stay alive
+  std::this_thread::sleep_for(200ms);
+  ::sendto(p, "two", 3, 0, (sockaddr *)&r.to, sizeof(r.to));
+  if (!r.waitData(2)) replay_io::fail("via_cap: the engine stopped delivering after the refused peer's datagram");
+  ::close(p); ::close(q);
+  replay_io::ok("via_cap: refused via-connect left no index entry; later datagrams are still delivered");
+  return 0;
+}
+
+int main(int argc, char **argv)
+{
+  if (argc > 1) { auto in = replay_io::load(argv[1]); if (in.count("SCENARIO") && in["SCENARIO"] == "via_cap") return via_cap(); }
   if (TransportConfig{}.ioReadChunk < 65507) replay_io::fail("assumption of udp_recv violated: default TransportConfig::ioReadChunk < 65507 (largest UDP payload) - default configuration truncates");
   {
     Rig r; TransportConfig cfg{};
